@@ -42,7 +42,7 @@ from harness import kit
 SKETCHED = ("S_ADA", "ADA_FD", "FD_SON", "RFD_SON")
 ALGOS = ("OGD", "ADA") + SKETCHED
 ALPHA_FACTOR = {"S_ADA": 1.0, "RFD_SON": 0.5, "FD_SON": 0.0, "ADA_FD": 0.0}
-GUARD_MAX = 1e100   # inputs are <= ~1e4, delta >= 1e-3 or 0: no legitimate state entry comes near this magnitude
+GUARD_MAX = 1e100   # inputs are <= ~1e4: no legitimate sketch entry (P, e, alpha, t, diag_h) comes near this magnitude
 KAPPA_MAX = 1e7      # w is compared only when B2/alpha is below this (beyond it the closed form is numerically ill-posed)
 
 
@@ -225,10 +225,11 @@ def run_impl(task):
             for g in gs:
                 state = update(state, jnp.array(0.0, jnp.float64), jnp.asarray(g.reshape(shape)))
                 states.append(A.as_np(state))
-                # a runaway state is not fed back (LAPACK's SVD may not terminate on non-finite input); the oracle
-                # reports the truncation. NaN in w alone (Ada-FD, delta = 0) does not reach the SVD.
+                # a runaway sketch state is not fed back (LAPACK's SVD may not terminate on non-finite input); the oracle
+                # reports the truncation. w never reaches the SVD (and with delta = 0 it is legitimately NaN for Ada-FD
+                # or astronomically large for the pseudo-inverse methods), so it is not guarded.
                 bad_keys = [k for k, v in states[-1].items()
-                            if (k != "w" and not np.all(np.isfinite(v))) or np.any(np.abs(np.nan_to_num(v, nan=0.0)) > GUARD_MAX)]
+                            if k != "w" and (not np.all(np.isfinite(v)) or np.any(np.abs(v) > GUARD_MAX))]
                 if bad_keys:
                     obs["truncated"] = {"step": len(states) - 1, "keys": bad_keys}
                     break
@@ -445,7 +446,9 @@ def oracle_train(case, states, hist, stats, cum_tol):
     for j, r in enumerate(obs):
         st = states[r]
         tolw = 10 * cum_tol[r] + 1e-12 * (1 + float(np.max(np.abs(st["w"])))) if np.all(np.isfinite(st["w"])) else 0.0
-        if not close(hist["w"][j], st["w"], tolw):
+        if not math.isfinite(tolw):
+            stats["train_w_skipped(after an ill-conditioned step)"] += 1
+        elif not close(hist["w"][j], st["w"], tolw):
             bad.append(f"train: w after row {r} differs from the init/update iterate (max dev {float(np.nanmax(np.abs(hist['w'][j] - st['w']))):.3e}, tol {tolw:.2e})")
         if "t" in st and float(hist["t"][j]) != float(st["t"]):
             bad.append(f"train: t after row {r} = {float(hist['t'][j])}")
@@ -588,6 +591,7 @@ def judge_sketched(ctx, case, states, reps_b, reps_s, svds, stats):
         wmax = float(np.max(np.abs(st["w"]))) if np.all(np.isfinite(st["w"])) else 0.0
         tl = w_step_tol(algo, float(st["alpha"]), B2, float(np.linalg.norm(g)), lr_eff(algo, lr), wmax)
         if tl is None:
+            cum_tol[-1] = math.inf          # from here on w is not comparable across runs (train vs eager) either
             stats["corr_w_skipped(alpha<=0 or kappa>1e7)"] += 1
             if not np.all(np.isfinite(st["w"])) and not close(mw, st["w"].ravel(), 0.0):
                 fails.append("w (non-finite pattern)")
@@ -679,7 +683,7 @@ def execute(ctx, cases, stats):
         if "truncated" in o:
             tr = o["truncated"]
             ctx.violation(f"{c['algo']} shape={c['shape']} sketch={c['k']} delta={kit.hex_f64(c['delta'])} lr={kit.hex_f64(c['lr'])} "
-                          f"[{c['profile']}]: state entries {tr['keys']} non-finite or above 1e100 after step {tr['step']} "
+                          f"[{c['profile']}]: sketch state entries {tr['keys']} non-finite or above 1e100 after step {tr['step']} "
                           f"(history of {len(c['gs'])} bounded gradients); history not continued", {"case": c})
             c = dict(c, gs=c["gs"][:len(states) - 1])
             cases[i] = c
@@ -773,10 +777,10 @@ def run(ctx):
     cases = corpus_cases()
     ncorpus = len(cases)
     cases += fixed_cases()
-    nrand = 450 if ctx.tier == "quick" else 2700
+    nrand = 720 if ctx.tier == "quick" else 2700
     for i in range(nrand):
         cases.append(gen_case(rng, f"r{ctx.seed}-{i}", ctx.tier, algo=ALGOS[i % 6]))
-    _add_train(rng, cases, 42 if ctx.tier == "quick" else 280)
+    _add_train(rng, cases, 56 if ctx.tier == "quick" else 280)
     ctx.cov["rule"] = ("a case is (algorithm, w_shape, sketch size, delta, lr, gradient history of length 1..20 [32 thorough] in dimension "
                        "2..8 [12]); fixed witnesses first, then seeded random histories (gauss, per-step scaled, zero steps, small integers, "
                        "signed basis vectors, sparse, rank < sketch size (float / integer / scaled), rank = sketch size). Non-trivial: "
